@@ -96,6 +96,8 @@ class OrderMistakeShock(EventABC):
     def hooked_before_order(self, simulator: "Simulator", order: "Order") -> None:  # type: ignore  # NOQA
         if not self.triggerd:
             market: "Market" = self.simulator.id2market[order.market_id]  # type: ignore  # NOQA
+            if market != self.target_market:
+                return
             base_price: float = market.get_market_price()
             order_price: float = base_price * (1 + self.price_change_rate)
             time_length: int = self.order_time_length
